@@ -3,10 +3,11 @@
    which the loop stopped (0 = MTI, 1 = bitmap, otherwise an element the bitmap announces, never one before the loop
    position); a failing MTI or bitmap is reported as 0 / 1. The truncation theorem (cutting a valid message inside
    element k is reported against k - it needs prefix-intolerance of every field codec) is checked by the oracle on
-   every truncation offset of generated messages and not yet proved (C19_truncate_statement). Typing (PackError /
+   every truncation offset of generated messages and not yet proved (C19_truncate_statement); that the path continues
+   with subfield tags inside composites, following the specification at every depth, is C19_nested_path. Typing (PackError /
    UnpackError, raw message) is glue outside the model and checked by the oracle on the library. *)
 From Iso Require Import Model.Base Model.Padding Model.Encoding Model.Prefix Model.Bitmap Model.Spec Model.Field Model.Message
-     Proofs.BaseLemmas Proofs.MessageProofs.
+     Proofs.BaseLemmas Proofs.MessageProofs Proofs.CompositeProofs Proofs.PathProofs.
 
 Theorem C19_error_has_owner : forall S m src m' path e, m_unpack S m src = (m', UErr path e) ->
   exists k rest, path = itoa k :: rest /\ 0 <= k.
@@ -31,3 +32,9 @@ Example C19_ex :
   zlookup 2 (m_fields (fst (m_unpack ms_ex (mfresh ms_ex) src))) = Some (SString [x61; x62; x63; x64]) /\
   m_present (fst (m_unpack ms_ex (mfresh ms_ex) src)) = [1; 0; 2].
 Proof. split; [eexists; vm_compute; reflexivity|]. split; vm_compute; reflexivity. Qed.
+
+(* inside a composite the path continues with the tag of the subfield at which decoding failed, and below it with a path
+   of that subfield's specification (path_ok), at every nesting depth and in all three composite modes *)
+Theorem C19_nested_path : forall s st d st' path e, unpack_f s st d = (st', UErr path e) -> path_ok s path.
+Proof. exact unpack_path_ok. Qed.
+Print Assumptions C19_nested_path.
